@@ -96,7 +96,7 @@ def concretize_time(tc, probe=False):
     r1 = {"m": "POST", "framing": {"k": "cl", "n": 12}} if s["body"] else {"m": "GET"}
     reqs = [r1] + ([{"m": "GET"}] if s["n"] == 2 else [])
     empty = {"status": 200, "conn": "-", "body": {"k": "empty"}}
-    progs = [{"pend": s["pend"], "read": s["read"], "keep": s["keep"], "resp": dict(empty)}]
+    progs = [{"pend": s["pend"], "read": s["read"], "keep": s["keep"], "svc_err": bool(s.get("err", False)), "resp": dict(empty)}]
     if s["n"] == 2:
         progs.append({"pend": 0, "read": "none", "keep": "handler", "resp": dict(empty)})
     cfg = {"ka_ms": s["ka_ms"], "head_ms": s["head_ms"], "disc_ms": s["disc_ms"], "half_closed": tc.get("half_closed", True),
@@ -489,6 +489,18 @@ def time_family(rnd, quick):
         c = h1gen.assemble(reqs, progs, cfg=cfg, steps=steps, epilogue=True)
         c["origin"] = "time/drained-upload-then-idle"
         cases.append(c)
+    # (g) the shutdown signal fires while a handler is pending that will fail: its error response is the in-flight answer
+    for status, kind in ((500, "empty"), (503, "bytes")):
+        reqs = [{"m": "GET"}, {"m": "GET"}]
+        progs = [{"pend": 1, "read": "none", "keep": "handler", "svc_err": True, "resp": {"status": status, "conn": "-", "body": {"k": kind, "chunks": [5] if kind == "bytes" else []}}},
+                 ok_prog(read="none")]
+        base = h1gen.assemble(reqs, progs, epilogue=False)
+        for cfg in ({"graceful": True}, {"graceful": True, "disc_ms": 1000}, {"graceful": True, "ka_ms": 0}):
+            for steps in ([{"seg": base["gt"][0]["end"]}, {"tick": 10}, {"sig": 1}, {"tick": 10}, {"h": 1}, {"tick": 10}, {"seg": 1000}],
+                          [{"seg": base["total"]}, {"tick": 10}, {"sig": 1}, {"tick": 10}, {"h": 1}, {"tick": 10}]):
+                c = h1gen.assemble(reqs, progs, cfg=cfg, steps=list(steps), epilogue=True)
+                c["origin"] = "time/signal-then-handler-error"
+                cases.append(c)
     # (f) the shutdown signal fires while the body of the request in flight is still arriving
     for framing in ({"k": "cl", "n": 30}, {"k": "chunked", "chunks": [10, 10, 10]}):
         reqs = [{"m": "POST", "framing": framing}, {"m": "GET"}]
